@@ -85,6 +85,22 @@ Theorem from_erc20_conserves :
 Proof. exact from_erc20_effect. Qed.
 Print Assumptions from_erc20_conserves.
 
+(** The swap-to-native hook (keeper/evm_hook.go): when the bound contract [c] has burned [amt] of
+    [from]'s ERC20 balance and emitted SwapToNative(from, to, amt) — the contract's own behaviour,
+    simulated by the harness — the hook mints exactly [amt] of the token filed under [c] in the
+    contract index to [to], and nothing else changes. *)
+Theorem hook_to_native_conserves :
+  forall s c from to amt s',
+    exec s (HookToNative c from to amt) = ROk s' -> NoDup (keys (erc20 s)) ->
+    exists sym t, get c (contracts s) = Some sym /\ get sym (tokens s) = Some t /\ 0 < amt /\ amt <= erc20_bal s c from /\
+      let denom := t_minunit t in
+      (forall d, supply_of s' d = supply_of s d + ind (eqb d denom) amt)
+      /\ (forall a d, balance s' a d = balance s a d + ind (eqb (a, d) (to, denom)) amt)
+      /\ (forall c' h, erc20_bal s' c' h = erc20_bal s c' h - ind (eqb (c', h) (c, from)) amt)
+      /\ (forall c', erc20_total s' c' = erc20_total s c' - ind (c =? c') amt).
+Proof. exact hook_to_native_effect. Qed.
+Print Assumptions hook_to_native_conserves.
+
 (** A failed message (conversion or any other) changes neither side.  [step] is the transactional
     semantics of a message: effects of a failing handler are discarded, which is what the cached
     multistore does for the bank and what a journalled EVM does for the contract (assumption
